@@ -646,6 +646,20 @@ class VM:
             return Ref(r.cell, r.path + (i,))
         raise Unmodelled('place ref ' + repr(p))
 
+    def runtime_type(self, v):
+        """type text of a runtime value, with generic arguments recovered from field values where a field has a parameter type"""
+        while isinstance(v, Ref): v = self.ref_get(v)
+        if not isinstance(v, (Adt, SymEnum)): return '_'
+        gs = self.mir.src.struct_generics.get(v.ty)
+        if not gs or not isinstance(v, Adt): return v.ty
+        args = []
+        for g in gs:
+            t = '_'
+            for i, (fname, fty) in enumerate(self.mir.src.struct_types.get(v.ty, [])):
+                if fty == g and i < len(v.fields): t = self.runtime_type(v.fields[i]); break
+            args.append(t)
+        return v.ty + '<' + ', '.join(args) + '>'
+
     def zst_value(self, fr, local):
         """zero-sized locals (capture-less closures, unit, fn items) are never assigned in MIR"""
         t = fr.fn.locals.get(local, '')
@@ -1234,9 +1248,9 @@ class VM:
             ci = tgt[1]; recv = args[0]
             while isinstance(recv, Ref): recv = self.ref_get(recv)
             if not isinstance(recv, (Adt, SymEnum)): raise Unmodelled(f'dyn dispatch on {recv!r}')
-            ty = recv.ty
-            if ty == 'Box': ty = 'Box<' + getattr(self.ref_get(self.box_ptr(recv)), 'ty', '_') + '>'
-            return self.call(f'<{ty} as {ci.trait}>::{ci.method}', args, None, None, subst={})
+            while isinstance(recv, Adt) and recv.ty == 'Box':       # Box<dyn Trait>: the method is the boxed value's
+                inner = self.box_ptr(recv); args = [inner] + list(args[1:]); recv = self.ref_get(inner)
+            return self.call(f'<{self.runtime_type(recv)} as {ci.trait}>::{ci.method}', args, None, None, subst={})
         raise Unmodelled('unresolved callee: ' + callee)
 
 
